@@ -8,15 +8,18 @@
 // delete) the old object once the mark reached the tick.
 //
 // --mode 0 / 1: thread-local style only / Accessor style only (default mixed).
-// --mode 2 (diagnostic, not part of the default mix): additionally registers the
-//   objects with the happens-before detector. On the unmodified tree this
-//   reports class `race`: a reader that leaves a region and re-enters publishes
-//   its new version with a *relaxed* store to the slot the earlier unlock()
-//   release-stored to; a writer that reads the relaxed value does not
-//   synchronise with the earlier unlock under C++20 (release sequences are no
-//   longer continued by same-thread stores), so the reclaimer's writes are
-//   formally unordered with the old region's reads. Benign on real hardware and
-//   under C++11-17 rules; outside the statement of C09.
+// --mode 2 / 3 (diagnostic, not part of the default mix): additionally register
+//   the objects with the happens-before detector; mode 3 with the C++20
+//   release-sequence rule, mode 2 with the C++11-17 rule (sim cfg relseq17: a
+//   later store of the thread that did the release store continues the
+//   sequence). On the unmodified tree mode 3 reports class `race` within a few
+//   runs: a reader that leaves a region and re-enters publishes its new version
+//   with a *relaxed* store to the slot the earlier unlock() release-stored to; a
+//   writer that reads the relaxed value does not synchronise with the earlier
+//   unlock under C++20, so the reclaimer's writes are formally unordered with
+//   the old region's reads. Benign on real hardware; outside the statement of
+//   C09. Mode 2 removes that report but still meets a rarer formal race (about
+//   one run in a hundred, not analysed to the end), so neither mode is claimed.
 //
 // Side channels (guide rule 11): objects travel through the atomic cell,
 // accessors through a mutex-protected mailbox; the plain `holds`/`unlinked`
@@ -307,7 +310,8 @@ void gen(Rng& r, Plan& p, const GenParams& gp) {
   gen_common(r, p, SB_ALWAYS, false, 900);
   int style = gp.mode == 0 ? 0 : gp.mode == 1 ? 1 : (int)r.below(2);
   p.cfg["style"] = style;
-  p.cfg["hb"] = gp.mode == 2 ? 1 : 0;
+  p.cfg["hb"] = (gp.mode == 2 || gp.mode == 3) ? 1 : 0;
+  p.cfg["relseq17"] = gp.mode == 3 ? 0 : 1;
   p.cfg["max_idle_jumps"] = 1500;
   int nreaders = (int)r.range(1, gp.thorough ? 4 : 3);
   int nwriters = r.chance(1, 3) ? 2 : 1;
